@@ -578,7 +578,47 @@ func (t *timeline) dirsFor(i int) (pre []Directive, in []Directive) {
 	return
 }
 
+// isRawDML: raw statement text that changes rows of existing tables only.
+func isRawDML(q string) bool {
+	q = strings.ToUpper(strings.TrimSpace(q))
+	return strings.HasPrefix(q, "INSERT ") || strings.HasPrefix(q, "UPDATE ") || strings.HasPrefix(q, "DELETE ")
+}
+
+// adopt replaces the model's rows of the selected database by what the real
+// executor returns now (after an unmodelled statement that succeeded).
+func (t *timeline) adopt(db *MDB) error {
+	w := t.w
+	for _, tb := range db.Tables {
+		o, err := w.observe(w.Sess.RelationService, tb.Name)
+		if err != nil {
+			return err
+		}
+		if len(o.Cols) != len(tb.Cols) {
+			return fmt.Errorf("column count changed")
+		}
+		rows := make([]*MRow, len(o.Rows))
+		for i := range o.Rows {
+			if len(o.Rows[i]) == 0 || o.Rows[i][0].K != "i" {
+				// the model's WHERE clauses compare the tag column with integers;
+				// a NULL or non-integer tag (raw INSERT without it) ends the modelling
+				return fmt.Errorf("tag column is not an integer")
+			}
+			rows[i] = &MRow{ID: o.IDs[i], Vals: o.Rows[i]}
+			if o.IDs[i] > db.MaxID {
+				db.MaxID = o.IDs[i]
+			}
+		}
+		tb.Rows = rows
+	}
+	return nil
+}
+
 func (t *timeline) resolveOutside(m *Model, name string) {
+	if t.unmodelled {
+		// the model no longer follows this timeline: images taken from here on
+		// have no admissible state to be compared with and are not explored
+		return
+	}
 	for _, im := range t.w.Captured {
 		if im.Admissible == nil && !im.InStmt {
 			im.Admissible = []*Model{m.Clone()}
@@ -643,7 +683,12 @@ func (t *timeline) run() {
 		if t.unmodelled {
 			exp = &Expect{Unchecked: true, FailAt: -1}
 		}
-		if s.Kind == KRawSQL && !isSelectText(s.SQL) {
+		// a raw (unmodelled) INSERT / UPDATE / DELETE: the model has no opinion
+		// on its outcome, but it keeps following the tables - if the statement
+		// is refused nothing may have changed, if it succeeds the observed
+		// contents are adopted. Any other raw non-SELECT ends the modelling.
+		rawDML := s.Kind == KRawSQL && isRawDML(s.SQL) && !t.unmodelled
+		if s.Kind == KRawSQL && !isSelectText(s.SQL) && !rawDML {
 			t.unmodelled = true
 			w.count("raw_mutation")
 		}
@@ -758,7 +803,7 @@ func (t *timeline) run() {
 		t.noteProbes(s, exp, recOps)
 		// ---- resolve admissible states of images taken inside this statement ----
 		for _, im := range w.Captured {
-			if im.Admissible != nil || !im.InStmt || im.StmtIdx != i {
+			if im.Admissible != nil || !im.InStmt || im.StmtIdx != i || t.unmodelled {
 				continue
 			}
 			switch im.Info["site"] {
@@ -817,6 +862,27 @@ func (t *timeline) run() {
 			if mm := compareTable(db, tb, o, true); mm != nil {
 				t.violate("O-contents", fmt.Sprintf("after statement %d: %s", i, mm.detail), map[string]string{"how": "contents", "class": mm.kind}, i)
 				break
+			}
+		}
+		if db := m.CurDB(); rawDML && db != nil && w.Sess != nil && w.Sess.RelationService != nil && w.Viol == nil {
+			if res.Err != nil {
+				w.count("raw_dml_refused_checked")
+				if mm := w.compareDB(w.Sess.RelationService, db, "", true); mm != nil && w.Viol == nil {
+					if w.Stats["lru_refuse"] > 0 {
+						t.r.res.Abandoned = "precondition: page cache refused a page during an observer query"
+						w.count("abandoned_cache_refused")
+						t.stop = true
+						break
+					}
+					t.violate("O-contents", fmt.Sprintf("after statement %d (%s), which returned %q: %s", i, describe(s), errClass(res.Err), mm.detail),
+						map[string]string{"how": "contents", "class": mm.kind, "after": "refused-raw"}, i)
+					break
+				}
+			} else if err := t.adopt(db); err != nil {
+				t.unmodelled = true
+				w.count("raw_mutation")
+			} else {
+				w.count("raw_dml_adopted")
 			}
 		}
 		if db := m.CurDB(); db != nil && w.Sess != nil && w.Sess.RelationService != nil && !exp.Unchecked {
@@ -881,7 +947,7 @@ func (t *timeline) run() {
 			t.violate("O-live", fmt.Sprintf("clean close failed: %v %s", err, pmsg), map[string]string{"how": "close-error"}, lastStmt)
 		}
 		for _, im := range w.Captured {
-			if im.Admissible == nil {
+			if im.Admissible == nil && !t.unmodelled {
 				im.Admissible = []*Model{m.Clone()}
 				im.AdmNames = []string{"acknowledged"}
 			}
